@@ -404,6 +404,45 @@ def r20_question_mark(text):
             return text, hits
 
 
+def r22_bool_then(text):
+    """RECV.then(|| EXPR)  ->  (if RECV { Some(EXPR) } else { None })   -- the definition of bool::then (the only std
+    `then` taking a closure); RECV is the postfix expression before `.then`.  Removes an unannotated closure."""
+    hits = 0
+    while True:
+        toks, match = _toks(text)
+        rev = {v: k for k, v in match.items()}
+        for i, t in enumerate(toks):
+            if not (t.kind == "ident" and t.text == "then" and i > 0 and toks[i - 1].text == "." and
+                    i + 2 < len(toks) and toks[i + 1].text == "(" and toks[i + 2].text == "||"):
+                continue
+            close = match[i + 1]
+            # receiver: walk back over a postfix chain
+            s = i - 2
+            while s >= 0:
+                tt = toks[s]
+                if tt.text in (")", "]") and s in rev:
+                    s = rev[s] - 1
+                    continue
+                if tt.kind == "ident" or tt.text in (".", "::", "!") or tt.kind in ("int", "num"):
+                    if tt.text == "!" and not (s > 0 and toks[s - 1].kind == "ident" and toks[s + 1].text in ("(", "[")):
+                        break
+                    if tt.kind == "ident" and tt.text in ("return", "in", "if", "while", "match", "let", "else", "mut"):
+                        break
+                    s -= 1
+                    continue
+                break
+            s += 1
+            if s > i - 2:
+                continue
+            recv = text[toks[s].start:toks[i - 2].end]
+            inner = text[toks[i + 2].end:toks[close].start].strip()
+            text = text[:toks[s].start] + "(if %s { Some(%s) } else { None })" % (recv, inner) + text[toks[close].end:]
+            hits += 1
+            break
+        else:
+            return text, hits
+
+
 def r4_cfg_resolve(text, debug_assertions):
     """Resolve #[cfg(debug_assertions)] / #[cfg(not(debug_assertions))] on the following
     field, statement or expression-statement for the stated profile."""
@@ -745,6 +784,8 @@ class FnItem:
             hits["R3b"] = h
         body, h = r6_bool_or_assign(body)
         hits["R6"] = h
+        body, h = r22_bool_then(body)
+        hits["R22"] = h
         if sp.get("math_inc"):
             body, h = r9_math_inc(body, sp["math_inc"])
             hits["R9"] = h
@@ -778,7 +819,7 @@ class FnItem:
             expected = hits
         # R1 / R2 only remove or guard logging, R3/R3b/R6/R7/R14/R20 are the language's own desugarings: their site
         # counts are recorded, not pinned.  Pinned: rewrites that abstract something (R4 profile, R9 counters, clock ...)
-        strict = lambda d: {k: v for k, v in d.items() if k not in ("R1", "R2", "R3", "R3b", "R6", "R7", "R14", "R20", "R21")}
+        strict = lambda d: {k: v for k, v in d.items() if k not in ("R1", "R2", "R3", "R3b", "R6", "R7", "R14", "R20", "R21", "R22")}
         if strict(hits) != strict(expected):
             raise Undecided("%s::%s: rewrite sites changed: expected %r, found %r" % (self.rel, self.name, expected, hits))
         # signature: named return, drop pub(crate) noise is fine in verus
